@@ -58,6 +58,8 @@ def task_json(t):
         op["index"] = f"idx-{t['name']}"
     elif t["op"] == "composite":
         op["requests"] = t["requests"]
+        if t.get("max-connections"):
+            op["max-connections"] = t["max-connections"]
     j = {"name": t["name"], "operation": op, "clients": t["clients"]}
     for k in ("warmup-iterations", "iterations", "warmup-time-period", "time-period", "target-throughput", "target-interval", "schedule", "tags"):
         if t.get(k) is not None:
